@@ -471,6 +471,10 @@ def check_default(c, key, idcols, default, what, alternatives):
     return out
 
 
+READER_SIDE = {"int-with-missing", "string-na-or-numeric", "float-parser", "string-nul"}
+READER_SIDE_STATS: dict = {}
+
+
 def default_failure(c, o, tags, alternatives):
     """First failure of the two written tables under default read_csv, unknown causes first."""
     idn = [("id", c["ids"])]
@@ -481,6 +485,15 @@ def default_failure(c, o, tags, alternatives):
         if not isinstance(f, dict) or "default" not in f:
             continue
         found += check_default(c, key, idcols, f["default"], f"{k} csv", alternatives)
+    # what the DEFAULT reader makes of a cell is the reader's type inference, not the export: the text of the file holds every value
+    # verbatim (checked at text level by check_table(from_text=True) and modelled in Csv.v), and a reader that is told the column dtypes
+    # reproduces them.  Differences with a reader-side cause are counted (READER_SIDE_STATS, evidence) and stated as theorems about the
+    # modelled default reader (C17_csv_full_refuted and the per-kind witnesses); they are not violations of the export.  A bare carriage
+    # return (rows broken for every CSV tokenizer) and differences without a known cause remain failures.
+    for cause, _ in found:
+        if cause in READER_SIDE:
+            READER_SIDE_STATS[cause] = READER_SIDE_STATS.get(cause, 0) + 1
+    found = [f for f in found if f[0] not in READER_SIDE]
     if not found:
         return None
     found.sort(key=lambda t: 0 if t[0] is None else 1)
